@@ -367,6 +367,58 @@ func checkC18(w *World, r *Report) {
 			"IsActiveDefault false ⇒ next default child; true ⇒ createDefault", "the default of a choice member is created although IsActiveDefault answered false (or not created when it answered true): defaults of cases that are neither selected nor the default case appear in the decorated tree")
 	})
 
+	r.Rule("R18.9", "whether a choice or case holds configuration is asked of that very node: the checker the decorator hands to IsActiveDefault is a closure that returns hasCfg(seen, node) for its argument, with no table in between (choices, cases and nested choices may share a name)", 1)
+	r.guard("R18.9", func() {
+		f := w.SSAFunc(w.Method("schema", "addDefaults", "yangDataChildren"))
+		if f == nil {
+			panic(undecided{"schema.addDefaults.yangDataChildren"})
+		}
+		isActive := w.SSAFunc(w.Func("schema", "IsActiveDefault"))
+		hasCfg := w.SSAFunc(w.Func("schema", "hasCfg"))
+		checked := false
+		for _, b := range f.Blocks {
+			for _, in := range b.Instrs {
+				c, ok := in.(*ssa.Call)
+				if !ok || c.Call.StaticCallee() != isActive {
+					continue
+				}
+				checked = true
+				arg := c.Call.Args[len(c.Call.Args)-1]
+				if ct, ok := arg.(*ssa.ChangeType); ok {
+					arg = ct.X
+				}
+				mc, ok := arg.(*ssa.MakeClosure)
+				good, why := false, "the checker is not a closure built at the call"
+				if ok {
+					cf := mc.Fn.(*ssa.Function)
+					good, why = true, ""
+					nret := 0
+					for _, cb := range cf.Blocks {
+						for _, ci := range cb.Instrs {
+							switch x := ci.(type) {
+							case *ssa.Lookup, *ssa.MapUpdate:
+								good, why = false, "the checker consults or fills a table"
+							case *ssa.Return:
+								nret++
+								call, isCall := x.Results[0].(*ssa.Call)
+								if !isCall || call.Call.StaticCallee() != hasCfg || call.Call.Args[1] != ssa.Value(cf.Params[0]) {
+									good, why = false, "the checker does not return hasCfg(seen, <its argument>)"
+								}
+							}
+						}
+					}
+					if nret != 1 {
+						good, why = false, "the checker has several exits"
+					}
+				}
+				r.Check(good, "R18.9", "yangDataChildren: configuration checker", c.Pos(), "func(n) { return hasCfg(seen, n) }", why+": the answer for one choice/case can be served for a different, like-named one, so defaults of an inactive case are added or those of the default case are missing")
+			}
+		}
+		if !checked {
+			panic(undecided{"yangDataChildren: IsActiveDefault call not found"})
+		}
+	})
+
 	r.Rule("R18.3", "explicit data wins and decoration is idempotent in what it adds: a default is created only for a child name not already present; a leaf's HasDefault agrees with its Default (which suppresses a type default on a mandatory leaf)", 2)
 	r.guard("R18.3", func() {
 		fd, _ := w.FuncDecl(w.Method("schema", "addDefaults", "yangDataChildren"))
